@@ -37,10 +37,20 @@ func (f FlagSet) IsMutuallyExclusive(flag *pflag.Flag) bool {
 	if groups, ok := flag.Annotations["cobra_annotation_mutually_exclusive"]; ok {
 		for _, group := range groups {
 			for _, name := range strings.Split(group, " ") {
-				if other := f.Lookup(name); other != nil && other.Changed {
+				// only a member of this very group counts: a local flag can shadow an inherited member by name (cobra ignores it as well)
+				if other := f.Lookup(name); other != nil && other.Changed && inMutuallyExclusiveGroup(other, group) {
 					return true
 				}
 			}
+		}
+	}
+	return false
+}
+
+func inMutuallyExclusiveGroup(flag *pflag.Flag, group string) bool {
+	for _, g := range flag.Annotations["cobra_annotation_mutually_exclusive"] {
+		if g == group {
+			return true
 		}
 	}
 	return false
